@@ -38,4 +38,7 @@ MUTANTS = [
     N("C06", "generator expression stage", P,
       "        return map(lambda t: self._format_trace(t), self.traces(kdebug, trace_codes))",
       "        return (self._format_trace(t) for t in self.traces(kdebug, trace_codes))"),
+    F("C06", "string record renames the data trace that was already reported", "trace_handlers/trace.py",
+      "    if data is not None:\n        parser.pids_names[data.pid] = event.name\n    return event\n\n\ndef handle_trace_string_exec",
+      "    if data is not None:\n        parser.pids_names[data.pid] = event.name\n        data.uniqueid = event.name\n    return event\n\n\ndef handle_trace_string_exec", "R6"),
 ]
